@@ -5,8 +5,9 @@ V = os.path.dirname(os.path.dirname(os.path.abspath(__file__)))
 props = [json.loads(l) for l in open(os.path.join(V, "properties.jsonl"))]
 
 SCHED_NOTE = ("Trusted: the Go toolchain; the instrumenter's rewrite rules and the shims in vrt/ (channels, sync.Pool, atomics, "
-              "in-memory filesystem, virtual clock); steps between two scheduling points are atomic (plain-memory races finer than "
-              "the hooked operations are not modelled); 2-3 threads and the stated preemption/deviation bounds, not 64 goroutines.")
+              "in-memory filesystem, virtual clock); scheduling points sit before every hooked operation and after every publishing "
+              "atomic / sync.Map operation, the code between two points is one atomic step (plain-memory races finer than that are "
+              "left to the complementary free-running -race pass); 2-3 threads and the stated preemption/deviation bounds, not 64 goroutines.")
 
 CHECKS = {
  "C03": dict(
@@ -98,15 +99,34 @@ EXTRA = {
  "C18": " Histories: all strings of length <=5 evaluated ascending and then descending in one process (the second pass after every other string has been evaluated); composition groups are checked in one process and once more at the end; RegisterTag on every string of length <=3 (4) after every valid name of that length has been registered.",
  "C20": " Further scenarios: interval boundaries with failing creations before the crash point; one (thorough two) write calls refused as a whole (EIO) before the crash point - only the refused call's own line is excused.",
 }
-for k, v in EXTRA.items():
-    CHECKS[k]["text"] += v
+# round 5
+EXTRA5 = {
+ "C03": " Every scheduler scenario also yields AFTER each publishing atomic / sync.Map operation (post-publication points), so that 'publish, then initialise' windows are explored.",
+ "C04": " Stop racing the drain: backlog 0/2/50/99 plus one producer (free worker), backlog 3 with a slow worker released at an explored moment: the conservation equation at the moment Stop returns.",
+ "C05": " (e) one appender shared by two loggers (sync+async on a File, two async on a RollingFile, async+sync on the console): Destroy's stop order is an explored choice (map-iteration seam), everything accepted by either logger is readable afterwards.",
+ "C07": " json.Marshaler / TextMarshaler values (indented, blank-padded RawMessage, invalid, truncated, empty, two values, raw line break, pointer receiver, nested in a struct, map keys) through Reflect and Any: one valid line, compacted like encoding/json, invalid output described by a string.",
+ "C08": " The marshaler cases of C07 as well.",
+ "C09": " Position independence over long inputs: 456 strings (every single byte, all pairs over 14 boundary bytes, runes and truncated runes) after n repetitions of each of 6 units (plain byte, 2-byte escape, 6-byte escape, 2-byte rune, invalid byte, quote) for EVERY n in 0..300 (thorough 1100): the output equals the concatenation of the parts' escapes, so any staging buffer of up to 256 (1024) bytes is crossed at every alignment.",
+ "C10": " Histories: the built-in logger after a configuration with a range below/at/above the event's level was live and destroyed; a sync (async) logger after an async (sync) configuration with the opposite verdict for the level: 28000 cases.",
+ "C11": " Two goroutines reaching the SAME cold / warm call site together, with a scheduling point after every publishing atomic / sync.Map operation (P<=2, thorough 3).",
+ "C16": " Explicit-state breadth-first search over the real package (c16/reachable-states): a state is identified by a canonical deep hash of everything reachable from the package-level variables plus the model state; every (state, operation) transition runs the full oracle, each Refresh under all 6 iteration orders of maps of <=3 keys; the search reaches a FIXPOINT (52 states, no new state after depth 5), i.e. every sequence of any length ends in an expanded state (up to the stated abstraction: pool/cache/channel contents and closure variables are not part of the identity); 24679 unpruned sequences of length <=3 are cross-checked to end in expanded states.",
+ "C18": " Registry growth: 1100 distinct valid names registered in sequence; at 40 checkpoints around every power of two all earlier names are registered again (pointer identity with the first registration) and GetAllTags is the exact set; after a Refresh the tags handed out first are served by the configured logger.",
+ "C19": " Long outages: one writer, intervals of 1 s / 1 min / 1 h, up to 4 (thorough 5) consecutive boundaries at which the creation fails, the clock landing on or just after the boundary: a creation is attempted at every later boundary.",
+ "C20": " Two threads with an interval boundary crossed at any clock read and the crash at any point (P<=1, thorough P<=2 and two boundaries).",
+}
+for e in (EXTRA, EXTRA5):
+    for k, v in e.items():
+        CHECKS[k]["text"] += v
+CHECKS["C15"]["note"] = CHECKS["C15"]["note"].replace("Trusted: the deviation table (expected defaults) in harness/enum/c15.go.", "Trusted: the deviation table in harness/enum/c15.go (expected defaults of integer/boolean/word attributes are read from the live plugin's struct tag, so a tree that declares other defaults is not an alarm).")
+CHECKS["C16"]["technique"] = "explicit-state search: exhaustive operation sequences to depth 5/6 and breadth-first search with canonical state hashing to a fixpoint, against a reference lifecycle model"
+CHECKS["C16"]["note"] += " The state identity of the breadth-first search leaves out sync.Pool / sync.Map contents, channel contents, variables captured by closures and the order of slices of plugin references."
 
 m = {
  "version": 1,
  "setup_cmd": "scripts/vcheck setup",
  "hooks": {
   "guard": "none: instrumentation is generated from /repo's working tree at check time and substituted with `go build -overlay`; nothing is committed to go-spring/log",
-  "enable": "scripts/vcheck runs cmd/instrument (type-directed source rewriting of sync/atomic/os/time imports, channels, select, go, map ranges) and builds the harness with -overlay, adding the virtual package github.com/go-spring/log/zzvrt and in-package reset/accessor files",
+  "enable": "scripts/vcheck runs cmd/instrument (scheduler group: type-directed source rewriting of sync/atomic/os/time imports, channels, select, go, map ranges; enumeration group: map ranges only, for a harness-controlled iteration order) and builds the harness with -overlay, adding the virtual package github.com/go-spring/log/zzvrt, a generated table of the package-level variables (deep in-place snapshot/restore, canonical state hash) and in-package accessor files that name no private identifier",
   "baseline_off_cmd": "cd /repo && GOFLAGS=-mod=mod GOPROXY=off go test -json -vet=off -count=1 -timeout 25m ./...",
   "source_commits": [],
   "add_only": True,
